@@ -41,7 +41,7 @@ func c10Programs(c *Ctx) []c10Prog {
 		{"publish-right-after-running", strings.Fields("add:a:p1 add:b:p2 add:c:p3 run waitrunning probe:c probe:b probe:a cancel")},
 		{"rh-before-run", strings.Fields("add:a:p1 rh run waitrunning probe:a cancel")},
 	}
-	n := c.Pick(20, 400)
+	n := c.Pick(20, 3000)
 	for i := 0; i < n; i++ {
 		hs := []string{"a", "b", "c", "d", "e"}[:1+c.Rng.Intn(5)]
 		var ops []string
